@@ -24,6 +24,11 @@ void   vf_file(const char *name, const char *content);      /* make `name` opena
 long   vf_stream_content(void *istream, char *buf, long cap); /* copy the unread content of an input stream */
 /* lock discipline (Eraser style): every access to [p,p+n) must happen while `mutex` is held (engine B only;
    a no-op natively: violations are confirmed by a multi-threaded stress run, see @opts confirm=stress) */
+/* whole-object frame checks driven by the IR struct layout of `type_name` (e.g. "class.Phreeqc"); members of
+   libstdc++ types are treated as opaque containers and skipped */
+void   vf_havoc(void *p, const char *type_name);                       /* scribble over every int/double leaf */
+void   vf_havoc_except(void *p, const char *type_name, const char *skip_prefixes); /* same, but members whose name starts with one of the |-separated prefixes keep their value */
+void   vf_same_scalars(const char *label, void *a, void *b, const char *type_name);  /* obligation: leaf-wise equal */
 void   vf_guarded(void *p, size_t n, void *mutex, const char *name);
 void   vf_guard_enable(int on);
 long   vf_locks_held(void);                          /* harness-internal error (never a violation) */
